@@ -121,6 +121,7 @@ let kent_of = function [k; e; v] -> { kk = z_of_int (int_of_string k); kexp = z_
 type 'e snap = Broken of string | NoSnap | Snap of 'e tree * pool
 
 let parse_tree_snap mk arity (s: string) : 'e snap =
+  let s = (match split_on "#" s with Some (a, _) -> a | None -> s) in
   if s = "-" then NoSnap
   else if starts_with "BROKEN" s then Broken s
   else
@@ -180,6 +181,91 @@ let compare_tree_snap (coll: string) key_of (snap: 'e snap) (mt: 'e tree) (mp: p
       mismatch "SLOTS" ~impl:(Printf.sprintf "blen=%d ucap=%d unused=%s" (int_of_n p.blen) (int_of_n p.ucap) (fmt_unused (List.map int_of_n p.unused)))
         ~model:(Printf.sprintf "blen=%d ucap=%d unused=%s%s" (int_of_n mp.blen) (int_of_n mp.ucap) (fmt_unused (List.map int_of_n mp.unused)) (if t <> mt then " (slot numbers in the tree differ)" else ""));
     check_inv key_of t p ~force:(not slots_ok)
+
+(* ------------------------------------------------------------------ arena level
+   The statement-by-statement arena models (Model/Arena*.v: parent / left / right links, colour and
+   entity of EVERY slot - sentinel, linked, freed, never used) are run beside the tree-level model and
+   compared with the implementation's raw buffer, field by field.  This ties the transcription itself
+   to the code; the refinement arena -> tree -> specification is proved (C02/C04/C01 ..._arena_...). *)
+let arena_live = ref true
+type arena_st = ANone | AMap of mast | AKey of kast
+let arena = ref ANone
+let arena_max = 256
+let kdflt = { kk = Z0; kexp = Z0; kval = Z0 }
+let mdflt : ment = (Z0, Z0)
+let compact (dflt: 'e) (a: 'e astate) (p: pool) : 'e astate =
+  let len = int_of_n p.blen in
+  let arr = Array.init len (fun i -> a.nodes (n_of_int i)) in
+  let d = { par = N0; lft = N0; rgt = N0; red = true; aent = dflt } in
+  { nodes = (fun i -> let j = int_of_n i in if j < len then arr.(j) else d); aroot = a.aroot }
+let arena_fuel (p: pool) = nat_of_int (3 * int_of_n p.blen + 64)
+let res_name = function ErrStuck -> "Stuck" | ErrFuel -> "OutOfFuel" | ErrPool -> "PoolEmpty" | ErrHandle -> "BadHandle" | ErrIndex -> "IndexOutOfRange" | ErrRange -> "OutOfMachineRange"
+
+let arena_mstep (o: mop) (out: mout) =
+  match !arena with
+  | AMap st ->
+    if int_of_n (snd st).blen > arena_max then arena := ANone
+    else begin
+      stat "arena_steps";
+      match arena_m_step (arena_fuel (snd st)) st o with
+      | Ret ((a', p'), out') ->
+        if out' <> out then mismatch "ARENA_OUT" ~impl:"(tree-level model's answer)" ~model:"arena-level model answers differently";
+        arena := (if int_of_n p'.blen > arena_max then ANone else AMap (compact mdflt a' p', p'))
+      | Err e -> mismatch "ARENA_ERR" ~impl:"tree-level model returned normally" ~model:("arena-level model returned " ^ res_name e); arena := ANone
+    end
+  | _ -> ()
+
+let arena_kstep (o: kop) (out: kout) =
+  match !arena with
+  | AKey st ->
+    if int_of_n (snd st).blen > arena_max then arena := ANone
+    else begin
+      stat "arena_steps";
+      let r = arena_k_step (arena_fuel (snd st)) st o in
+      match r with
+      | Ret ((a', p'), out') ->
+        if out' <> out then mismatch "ARENA_OUT" ~impl:"(tree-level model's answer)" ~model:"arena-level model answers differently";
+        arena := (if int_of_n p'.blen > arena_max then ANone else AKey (compact kdflt a' p', p'))
+      | Err e -> mismatch "ARENA_ERR" ~impl:"tree-level model returned normally" ~model:("arena-level model returned " ^ res_name e); arena := ANone
+    end
+  | _ -> ()
+
+(* the implementation's raw buffer against the arena-level model's, every field of every slot *)
+let compare_raw (mk: string list -> 'e) (fmt: 'e -> string) (snap: string) (a: 'e astate) (p: pool) =
+  match split_on "#" snap with
+  | None -> ()
+  | Some (_, raw) ->
+    (match String.split_on_char ';' raw with
+     | root :: slots ->
+       stat "raw_arenas";
+       let cs b = if b then "R" else "B" in
+       let bad = ref false in
+       if int_of_string (String.trim root) <> int_of_n a.aroot then begin
+         bad := true; mismatch "ARENA" ~impl:("root " ^ String.trim root) ~model:(Printf.sprintf "root %d" (int_of_n a.aroot)) end;
+       if List.length slots <> int_of_n p.blen then begin
+         bad := true; mismatch "ARENA" ~impl:(Printf.sprintf "%d slots" (List.length slots)) ~model:(Printf.sprintf "%d slots" (int_of_n p.blen)) end;
+       List.iteri (fun i sl ->
+         if not !bad then
+           match words sl with
+           | pp :: l :: r :: c :: et ->
+             let nd = a.nodes (n_of_int i) in
+             statn "raw_slots" 1;
+             if int_of_string pp <> int_of_n nd.par || int_of_string l <> int_of_n nd.lft || int_of_string r <> int_of_n nd.rgt
+                || c <> cs nd.red || mk et <> nd.aent then begin
+               bad := true;
+               mismatch "ARENA" ~impl:(Printf.sprintf "slot %d: %s" i (String.trim sl))
+                 ~model:(Printf.sprintf "slot %d: %d %d %d %s %s" i (int_of_n nd.par) (int_of_n nd.lft) (int_of_n nd.rgt) (cs nd.red) (fmt nd.aent))
+             end
+           | _ -> ()) slots
+     | [] -> ())
+
+
+let fmt_ment_raw (e: ment) = Printf.sprintf "%d %d" (int_of_z (fst e)) (int_of_z (snd e))
+let fmt_kent_raw (e: kent) = Printf.sprintf "%d %d %d" (int_of_z e.kk) (int_of_z e.kexp) (int_of_z e.kval)
+(* a never-written slot of the set holds the default payload, the empty string: read as 0 *)
+let ment_of_raw = function [k] -> ment_of [k; "0"] | l -> ment_of l
+let raw_map snap = (match !arena with AMap (a, p) -> compare_raw ment_of_raw fmt_ment_raw snap a p | _ -> ())
+let raw_key snap = (match !arena with AKey (a, p) -> compare_raw kent_of fmt_kent_raw snap a p | _ -> ())
 
 (* ------------------------------------------------------------------ map / set *)
 type mkind = { is_set : bool; is_list : bool }
@@ -241,7 +327,7 @@ let run_mapset_op k (m: mmodel ref) (spec: amap ref) (held: n list ref) (held_ke
   : string * string =
   (* returns (model answer, spec answer) *)
   let zi s = z_of_int (int_of_string s) in
-  let step o = let (m', out) = mstep !m o in m := m'; coq_log (gal_mop o) (gal_mout out); out in
+  let step o = let (m', out) = mstep !m o in m := m'; coq_log (gal_mop o) (gal_mout out); (if !arena_live then arena_mstep o out); out in
   let hv h = match h with None -> hs None | Some x -> hs h ^ " " ^ fmt_ent k (Option.get (out_ent (step (MValAt x)))) in
   let sv = function None -> "" | Some e -> fmt_ent k e in
   let first_tok tok key = match tok with
@@ -461,6 +547,7 @@ let parse_chunks (count: int) (places: string list) : copy list list =
    states.  Afterwards the model adopts the state the implementation is in. *)
 let injected (st: hstate ref) (op: string) (snap: string) =
   let toks = words op in
+  arena := ANone;
   match !st with
   | HNone | HDead -> ()
   | HMap (k, m, spec, held, held_keys) ->
@@ -573,10 +660,10 @@ let process_op_line (st: hstate ref) (line: string) ~(terminated: bool) =
       (match !st with
        | HMap (k, m, _, _, _) ->
          (match !m with
-          | MT s -> compare_tree_snap !cur_coll mkey (parse_tree_snap ment_of 2 snap) s.root s.pl
+          | MT s -> compare_tree_snap !cur_coll mkey (parse_tree_snap ment_of 2 snap) s.root s.pl; raw_map snap
           | ML _ -> ())
        | HKey (false, m, _) ->
-         (match !m with KT s -> compare_tree_snap !cur_coll (fun e -> e.kk) (parse_tree_snap kent_of 3 snap) s.kroot s.kpl | _ -> ())
+         (match !m with KT s -> compare_tree_snap !cur_coll (fun e -> e.kk) (parse_tree_snap kent_of 3 snap) s.kroot s.kpl; raw_key snap | _ -> ())
        | HSeg (m, _, (lo, hi)) ->
          (* C14 evaluated directly on what the implementation built; arithmetic on the extracted Z
             (domain lengths reach 2^62, beyond OCaml's native integers) *)
@@ -647,7 +734,7 @@ let process_op_line (st: hstate ref) (line: string) ~(terminated: bool) =
               | _ -> ())
            | ML _ -> if snap <> "-" && snap <> fmt_pairs (Lazy.force sorted_spec) then mismatch "ABS" ~impl:snap ~model:(fmt_pairs (Lazy.force sorted_spec)));
           (match !m with
-           | MT s -> compare_tree_snap !cur_coll mkey (parse_tree_snap ment_of 2 snap) s.root s.pl
+           | MT s -> compare_tree_snap !cur_coll mkey (parse_tree_snap ment_of 2 snap) s.root s.pl; raw_map snap
            | ML l ->
              if snap <> "-" then begin
                let ms = unwords (List.map (fun (a, b) -> Printf.sprintf "%d %d" (int_of_z a) (int_of_z b)) l) in
@@ -664,6 +751,7 @@ let process_op_line (st: hstate ref) (line: string) ~(terminated: bool) =
                ignore forked;
                let ((s', out), evs) = get (k_step s o) in
                m := KT s';
+               arena_kstep o out;
                if forked then coq_ok := false else coq_log (gal_kop toks) (gal_kout out);
                let calls = List.filter_map (fun ((kind, e), _) -> match kind with EvCmp -> Some (Printf.sprintf "%d:%d" (int_of_z e.kk) (int_of_z e.kexp)) | EvExp -> None) evs in
                (fmt_kout out, Some calls, int_of_n (k_export_capacity s))
@@ -701,7 +789,7 @@ let process_op_line (st: hstate ref) (line: string) ~(terminated: bool) =
            | Some mc -> if List.sort_uniq compare seen <> List.sort_uniq compare mc then mismatch "CALLS" ~impl:(unwords seen) ~model:(unwords mc)
            | None -> ());
           (match !m with
-           | KT s -> compare_tree_snap !cur_coll (fun e -> e.kk) (parse_tree_snap kent_of 3 snap) s.kroot s.kpl
+           | KT s -> compare_tree_snap !cur_coll (fun e -> e.kk) (parse_tree_snap kent_of 3 snap) s.kroot s.kpl; raw_key snap
            | KL s ->
              if snap <> "-" then begin
                let ms = String.concat "" (List.map (fun e -> Printf.sprintf "%d %d %d " (int_of_z e.kk) (int_of_z e.kexp) (int_of_z e.kval)) s.kbuf) ^ Printf.sprintf "| %d" (int_of_z s.kmin) in
@@ -865,6 +953,10 @@ let () =
            | "keylist" -> coq_kind := "klist"
            | "seg" -> (match ps with [lo; hi] -> coq_kind := "seg"; coq_head := Printf.sprintf "(%d)%%Z (%d)%%Z" lo hi | _ -> coq_kind := "")
            | _ -> coq_kind := "");
+          arena := (match coll with
+            | "maptree" | "settree" -> AMap (empty_arena mdflt, tree_pool_new (n_of_int cap))
+            | "keytree" -> AKey (empty_arena kdflt, tree_pool_new (n_of_int cap))
+            | _ -> ANone);
           st := (match coll with
             | "maptree" -> HMap ({ is_set = false; is_list = false }, ref (MT (m_new (n_of_int cap))), ref [], ref [], ref [])
             | "settree" -> HMap ({ is_set = true; is_list = false }, ref (MT (m_new (n_of_int cap))), ref [], ref [], ref [])
